@@ -155,7 +155,7 @@ func c19Coq(cs *c19Case) string {
 	for i, e := range cs.Appends {
 		secs[i] = fmt.Sprintf("%d", e.Second)
 	}
-	return fmt.Sprintf("{| wa_appends := %s; wa_seconds := [%s]%%N; wa_lists := [%s] |}", ents(cs.Appends), strings.Join(secs, "; "), strings.Join(ls, ";\n "))
+	return fmt.Sprintf("{| wa_appends := %s; wa_seconds := [%s]%%N; wa_refused := %d%%nat; wa_lists := [%s] |}", ents(cs.Appends), strings.Join(secs, "; "), len(cs.Errs), strings.Join(ls, ";\n "))
 }
 
 func max0(n int) int {
@@ -173,7 +173,7 @@ func init() {
 		c.CaseTy = "wcase"
 		c.Report = "report"
 		c.PerFile = 6
-		c.Rule = "histories of 1..5 phases; before a phase the store clock moves by 0 s, 1 s, 5 s, 10 min, 25 min or 1 h; in a phase 1..6 entries are appended concurrently, with payloads that are empty, multi-line, YAML-looking or longer than 1 KiB; then 4..8 listings from issued tokens and from synthetic tokens 0 s .. 2 h before the last one, with max in {0, 1, 2, 3, 10, 1000, 2000}; the store lists from a start key in key order; non-trivial = history with entries in at least two different seconds, distinct by tokens"
+		c.Rule = "histories of 1..5 phases; before a phase the store clock moves by 0 s, 1 s, 5 s, 10 min, 25 min or 1 h; in a phase 1..6 entries are appended concurrently, with payloads that are empty, multi-line, YAML-looking or longer than 1 KiB, the same payload often several times within a second; then 4..8 listings from issued tokens and from synthetic tokens 0 s .. 2 h before the last one, with max in {0, 1, 2, 3, 10, 1000, 2000}; the store lists from a start key in key order; non-trivial = history with entries in at least two different seconds, distinct by tokens"
 		emit := func(cs *c19Case) {
 			key := ""
 			secs := map[string]bool{}
@@ -213,6 +213,9 @@ func init() {
 				ph := c19Phase{AdvanceSec: []int{0, 1, 5, 600, 1500, 3600}[r.Intn(6)]}
 				for k := 0; k < r.Range(1, 6); k++ {
 					pl := c19Payloads[r.Intn(len(c19Payloads))]
+					if k > 0 && r.Chance(1, 4) { // the same payload again within the second
+						pl = ph.Payloads[r.Intn(len(ph.Payloads))]
+					}
 					if r.Chance(1, 8) {
 						pl = strings.Repeat("0123456789abcdef", 70+r.Intn(30)) + "\nend"
 					}
